@@ -251,16 +251,16 @@ func gen(c *hx.Ctx) {
 			}
 		}
 	}
-	for i := 0; i < c.Budget(150000, 500000); i++ {
+	for i := 0; i < c.Budget(150000, 1000000); i++ {
 		i32tok(c, p, randI32(c), "int32_random")
 	}
 	p.flush()
 
 	// 3b. range protocol: whole blocks of 2^16 consecutive int32 patterns (fixed + 7-bit, write and read back), one CRC each.
-	// Boundary blocks always, the rest drawn from the seed (quick 20 blocks = 1.3M values, thorough 128 = 8.4M values; the
+	// Boundary blocks always, the rest drawn from the seed (quick 20 blocks = 1.3M values, thorough 64 = 4.2M values; the
 	// thorough tier of ./check additionally sweeps thousands of blocks (or all 65536) in parallel shards — see checklib/c11.py).
 	blocks := []int{0x0000, 0x0001, 0x003f, 0x0040, 0x007f, 0x0080, 0x0fff, 0x1000, 0x7fff, 0x8000, 0xefff, 0xf000, 0xff7f, 0xff80, 0xfffe, 0xffff}
-	for len(blocks) < c.Budget(20, 128) {
+	for len(blocks) < c.Budget(20, 64) {
 		blocks = append(blocks, c.Rng.Intn(65536))
 	}
 	for _, b := range blocks {
@@ -274,7 +274,7 @@ func gen(c *hx.Ctx) {
 		p.add("l:" + strconv.FormatInt(v, 10))
 		c.Count("int64_boundary")
 	}
-	for i := 0; i < c.Budget(100000, 300000); i++ {
+	for i := 0; i < c.Budget(100000, 600000); i++ {
 		p.add("l:" + strconv.FormatInt(randI64(c), 10))
 		c.Count("int64_random")
 	}
@@ -307,7 +307,7 @@ func gen(c *hx.Ctx) {
 	}
 
 	// 6. random typed sequences
-	for i := 0; i < c.Budget(10000, 80000); i++ {
+	for i := 0; i < c.Budget(10000, 120000); i++ {
 		n := c.Rng.Range(1, 12)
 		toks := make([]string, n)
 		for j := range toks {
